@@ -6,6 +6,7 @@ import (
 	"go/ast"
 	"go/printer"
 	"go/token"
+	"sort"
 	"strings"
 )
 
@@ -184,8 +185,10 @@ func readAssign(as *ast.AssignStmt, recvVar string, widths map[string]int, local
 }
 
 // stickyReaders: helper types of the file that read consecutive fields and stop at the first failure:
-//   type T struct { r *reader.Reader; err error }
-//   func (f *T) m(dst *uintN) { if f.err == nil { *dst, f.err = f.r.UintN() } }
+//
+//	type T struct { r *reader.Reader; err error }
+//	func (f *T) m(dst *uintN) { if f.err == nil { *dst, f.err = f.r.UintN() } }
+//
 // Returns type name -> method name -> width, for the methods that have exactly that shape (so that `f.m(&x.F)` is a read of
 // x.F of that width that happens only while no earlier read has failed, and `return f.err` returns the first failure).
 func stickyReaders(f *ast.File) map[string]map[string]int {
@@ -231,8 +234,53 @@ func stickyReaders(f *ast.File) map[string]map[string]int {
 	return out
 }
 
+// variadicReaders: helpers of the file of the shape
+//
+//	func name(r io.Reader, fields ...interface{}) error { for _, f := range fields { if err := read(r, f); err != nil { return err } }; return nil }
+//
+// (the fields are read one after the other with the same `read`, stopping at the first failure)
+func variadicReaders(f *ast.File) map[string]bool {
+	out := map[string]bool{}
+	for _, d := range f.Decls {
+		fd, ok := d.(*ast.FuncDecl)
+		if !ok || fd.Recv != nil || fd.Body == nil || fd.Type.Params == nil || len(fd.Type.Params.List) != 2 || len(fd.Body.List) != 2 {
+			continue
+		}
+		p2 := fd.Type.Params.List[1]
+		if _, ok := p2.Type.(*ast.Ellipsis); !ok || len(p2.Names) != 1 || len(fd.Type.Params.List[0].Names) != 1 {
+			continue
+		}
+		rname, fields := fd.Type.Params.List[0].Names[0].Name, p2.Names[0].Name
+		rs, ok := fd.Body.List[0].(*ast.RangeStmt)
+		if !ok || exprString(rs.X) != fields || rs.Value == nil || len(rs.Body.List) != 1 {
+			continue
+		}
+		ifs, ok := rs.Body.List[0].(*ast.IfStmt)
+		if !ok || !isErrCheckReturn(ifs) {
+			continue
+		}
+		as, ok := ifs.Init.(*ast.AssignStmt)
+		if !ok || exprString(as.Rhs[0]) != fmt.Sprintf("read(%s, %s)", rname, exprString(rs.Value)) {
+			continue
+		}
+		if ret, ok := fd.Body.List[1].(*ast.ReturnStmt); !ok || len(ret.Results) != 1 || exprString(ret.Results[0]) != "nil" {
+			continue
+		}
+		out[fd.Name.Name] = true
+	}
+	return out
+}
+
+// orTerms: the |-separated terms of an expression, sorted (| is commutative)
+func orTerms(s string) string {
+	t := strings.Split(strings.ReplaceAll(s, " ", ""), "|")
+	sort.Strings(t)
+	return strings.Join(t, "|")
+}
+
 func extractLayout(f *ast.File, sp layoutSpec) []litem {
 	widthsAll := structWidths(f)
+	variadic := variadicReaders(f)
 	sticky := stickyReaders(f)
 	stickyVar, stickyType := "", ""
 	for _, d := range f.Decls {
@@ -263,6 +311,34 @@ func extractLayout(f *ast.File, sp layoutSpec) []litem {
 			case *ast.ReturnStmt:
 				if stickyVar != "" && !(len(s.Results) == 1 && exprString(s.Results[0]) == stickyVar+".err") {
 					items = append(items, litem{"!return:" + exprString(s), 0}) // the first failure must be what is returned
+				}
+				if len(s.Results) == 1 {
+					if call, ok := s.Results[0].(*ast.CallExpr); ok {
+						if id, ok := call.Fun.(*ast.Ident); ok {
+							switch {
+							case id.Name == "read" && len(call.Args) == 2:
+								// return read(r, &x.F): the last field
+								if fn, ok := selField(call.Args[1], recvVar); ok && widths[fn] != 0 {
+									items = append(items, litem{fn, widths[fn]})
+								} else {
+									items = append(items, litem{"!return:" + exprString(s), 0})
+								}
+							case variadic[id.Name] && len(call.Args) >= 1:
+								// return readFields(r, &x.A, &x.B, ...): the fields in that order
+								for _, a := range call.Args[1:] {
+									if fn, ok := selField(a, recvVar); ok && widths[fn] != 0 {
+										items = append(items, litem{fn, widths[fn]})
+									} else {
+										items = append(items, litem{"!list-element:" + exprString(a), 0})
+									}
+								}
+							default:
+								items = append(items, litem{"!return:" + exprString(s), 0})
+							}
+						} else {
+							items = append(items, litem{"!return:" + exprString(s), 0})
+						}
+					}
 				}
 				continue
 			case *ast.IfStmt:
@@ -312,7 +388,7 @@ func extractLayout(f *ast.File, sp layoutSpec) []litem {
 					if fn, ok := selField(s.Lhs[0], recvVar); ok {
 						rhs := exprString(s.Rhs[0])
 						for b, n := range locals {
-							if n == 3 && rhs == fmt.Sprintf("uint32(%s[2]) | uint32(%s[1])<<8 | uint32(%s[0])<<16", b, b, b) {
+							if n == 3 && orTerms(rhs) == orTerms(fmt.Sprintf("uint32(%s[2]) | uint32(%s[1])<<8 | uint32(%s[0])<<16", b, b, b)) {
 								for i := range items {
 									if items[i].name == "@"+b {
 										items[i].name = fn
